@@ -5,6 +5,7 @@
      O            Open                      K<c>  CallerClose c        W<c>  Wrap c        B  NewBody
      P<b>:<shape>:<items>   Push b items    items = comma separated  h<n> | r<n> | x   ("-" = none)
      R<b>  Reset    D<b>  DropBody    S<b>  Send    I<cs>:<idxs>  Inject (comma separated, "-" = none)
+     G<b>:<k>  Decode (first k stored descriptors)    M<b>  DecodeOwned
      V  Recv    U<b>:<idx>  Unmarshal    A<b>:<j>  Parse    C<h> Clone   Y<h> DupH   T<h> Take   X<h> DropHandle
    modes (argv.(1)):
      run    (default) -> one JSON array per line: per operation {"res","ev","tab","cfds","hnd","bods","wire"}
@@ -52,6 +53,8 @@ let parse_op s =
   | 'V' -> Recv
   | 'U' -> (match split ':' arg with [b; i] -> Unmarshal (nat_of_int (num b), n_of_int (num i)) | _ -> failwith "unmarshal")
   | 'A' -> (match split ':' arg with [b; j] -> Parse (nat_of_int (num b), nat_of_int (num j)) | _ -> failwith "parse")
+  | 'G' -> (match split ':' arg with [b; k] -> Decode (nat_of_int (num b), nat_of_int (num k)) | _ -> failwith "decode")
+  | 'M' -> DecodeOwned (nat1 ())
   | 'C' -> Clone (nat1 ())
   | 'Y' -> DupH (nat1 ())
   | 'T' -> Take (nat1 ())
@@ -69,6 +72,7 @@ let show_res = function
   | RCfd c -> Printf.sprintf "cfd:%d" (int_of_nat c)
   | RHandle h -> Printf.sprintf "h:%d" (int_of_nat h)
   | RBody b -> Printf.sprintf "b:%d" (int_of_nat b)
+  | RHandles l -> "hs:" ^ String.concat "," (List.map (fun h -> string_of_int (int_of_nat h)) l)
   | RPushed l -> "pushed:" ^ String.concat "," (List.map (fun n -> string_of_int (int_of_n n)) l)
   | RSent (h, n) -> Printf.sprintf "sent:%d:%d" (int_of_n h) (int_of_n n)
   | RTaken None -> "taken:none"
